@@ -356,6 +356,10 @@ class Array(metaclass=MetaArray):
                 order = cls._order
                 strides = cls._strides
                 items = np.prod(shape)
+                if len(args) == 0:
+                    raise ValueError(
+                        "Cannot initialize array of dynamically sized items without arguments"
+                    )
                 value = args[0]
                 if tuple(
                     get_shape_from_array(value, len(shape))
